@@ -96,7 +96,14 @@ def _call(fam, name, fn, *a):
     if fam in ("ipv4", "ipv6"):
         assert name == ""
         return getattr(m, fn)(*a)
-    return getattr(m, fn)(*a, getattr(m, name))
+    f = getattr(m, fn)
+    if name in ("DEFAULT_DIALECT", "DEFAULT_EUI64_DIALECT"):
+        # the module's default dialect: leave the argument out, so that the `dialect=None` default itself is exercised
+        import inspect
+        par = inspect.signature(f).parameters.get("dialect")
+        if par is not None and par.default is None:
+            return f(*a)
+    return f(*a, getattr(m, name))
 
 
 def _g(fn):
